@@ -119,6 +119,10 @@ impl Strategy {
             &mut collector,
         );
 
+        let state_next = match state_next {
+            LeapfrogResult::Err(err) => return Err(NutsError::LogpFailure(err.into())),
+            other => other,
+        };
         let LeapfrogResult::Ok(_) = state_next else {
             return Ok(());
         };
@@ -142,6 +146,10 @@ impl Strategy {
                 1000.0,
                 &mut collector,
             );
+            let state_next = match state_next {
+                LeapfrogResult::Err(err) => return Err(NutsError::LogpFailure(err.into())),
+                other => other,
+            };
             let LeapfrogResult::Ok(_) = state_next else {
                 *hamiltonian.step_size_mut() = self.options.initial_step;
                 return Ok(());
